@@ -381,6 +381,7 @@ class NatGen(libgen.Gen):
             s = self.gen_function(cls, "method", name="size", ret=T("int", c="int"), params=[], const=True, indent=ind)
             self.fix_body_return(s, "4")
             s["feature"] = "setitem"
+            s["operator"] = "len"      # with an integer operator [] this is the sequence protocol's __len__
             cls["methods"].append(s)
         cls["item_array"] = dict(name=arr, size=4, seq=seq)
         cls.setdefault("raw_public", []).append(f"#ifndef CPPPARSER\n  int {arr}[4] = {{11, 22, 33, 44}};\n#endif")
@@ -484,6 +485,8 @@ class NatGen(libgen.Gen):
         for c in self.model["classes"]:
             self.cx.append(f"  for (int i = 0; i < 3; ++i) {c['qname']}::vf_pool(i);")
         self.cx.append("}")
+        # liveness by instance id (sub-objects registered by base constructors are merged into the complete object)
+        self.cx.append('extern "C" int vf_iid_live(int iid) { for (auto &r : vf::g_ranges) if (r.iid == iid) return 1; return 0; }')
         return self
 
 
